@@ -218,7 +218,7 @@ CHECKS = {
         "exhaustive_if_units": ["crashpoints"],
         "units": [
             {"name": "xfer", "pkg": X, "run": "^TestVerifC04|^TestVerifC0405", "common": {"env": {"VERIF_CRASH_PROP": "C04"}},
-             "quick": {"checks": 100, "shards": 8, "timeout": 900},
+             "quick": {"checks": 220, "shards": 8, "timeout": 900},
              "thorough": {"checks": 300, "shards": 16, "timeout": 3400}},
         ],
     },
